@@ -46,7 +46,10 @@ def col_from_name(name):
     return j + 1 if name.isupper() else j
 
 
-def make(N, D, name='c04.fcs'):
+_HANDLES = []
+
+
+def make(N, D, name='c04.fcs', via='path'):
     import FlowCal.io
     names = chan_names(D)
     mat = [[100 * i + j + 1 for j in range(D)] for i in range(N)]
@@ -55,7 +58,15 @@ def make(N, D, name='c04.fcs'):
                 pnv=[str(100 + j) for j in range(D)], png=[str(1 + j) for j in range(D)], pns=['lab%d' % j for j in range(D)])
     path = os.path.join(workdir(), name)
     fcsgen.write(path, spec)
-    d = FlowCal.io.FCSData(path)
+    if via == 'handle':
+        # a sample may be loaded from an open binary file as well as from a path
+        while len(_HANDLES) > 4:
+            _HANDLES.pop(0).close()
+        fh = open(path, 'rb')
+        _HANDLES.append(fh)
+        d = FlowCal.io.FCSData(fh)
+    else:
+        d = FlowCal.io.FCSData(path)
     base = np.array(mat, dtype=np.asarray(d).dtype).reshape((N, D))
     meta = [dict(name=names[j], range=[0.0, 2048.0 * (j + 1) - 1], resolution=2048 * (j + 1),
                  at=(float(j), 1.0) if j else (0.0, 0.0), gain=1.0 + j, voltage=100.0 + j, label='lab%d' % j)
@@ -398,8 +409,13 @@ def _chain_case(draw):
             n, dd = sub.shape
     assign = None
     if draw(st.sampled_from([False, False, True])):
-        assign = draw(st.sampled_from(['scalar', 'array']))
-    return dict(arm='chain', N=N, D=D, chain=chain, assign=assign)
+        assign = draw(st.sampled_from(['scalar', 'array', 'self', 'self']))
+        if assign == 'self' and dd >= 2 and draw(st.booleans()):
+            # a block of rows (slice) of a list of channels: the form in which whole columns are usually written
+            v = st.one_of(st.none(), st.integers(-n, n))
+            chain[-1] = [['slice', [draw(v), draw(v), draw(st.sampled_from([None, 1, 1, 2]))]],
+                         ['list', draw(st.lists(st.one_of(st.integers(0, dd - 1), st.sampled_from(nm)), min_size=1, max_size=min(dd, 4), unique=True))]]
+    return dict(arm='chain', N=N, D=D, chain=chain, assign=assign, via=draw(st.sampled_from(['path', 'path', 'handle'])))
 
 
 def strategy(tier):
@@ -408,7 +424,8 @@ def strategy(tier):
 
 def check(case, obs):
     N, D = case['N'], case['D']
-    d, base, meta = make(N, D)
+    d, base, meta = make(N, D, via=case.get('via', 'path'))
+    obs.label('loaded_from:' + case.get('via', 'path'))
     chain = [(tuple(rk), tuple(ck)) for rk, ck in case['chain']]
     obs.label('chain_len:%d' % len(chain), 'assign:%s' % case.get('assign'))
     obs.nontrivial = len(chain) >= 2 or nontrivial_key(*chain[-1])
@@ -457,6 +474,24 @@ def _check_assign(obs, d, base, meta, rk, ck, how):
         exp_err = type(e).__name__
         val = 9999
     d2 = d.copy()
+    if how == 'self' and exp_err is None and np.ndim(target) == 2 and np.shape(target)[1] >= 1 and ck[0] != 'absent':
+        # the right-hand side is a view of the sample itself (its first columns, same rows): source and destination
+        # may overlap, and the outcome must be that of plain array assignment (which buffers)
+        k = np.shape(target)[1]
+        rr = realise(rk)
+        model = base.copy()
+        try:
+            src_model = model[rr, 0:k]
+            if np.shape(src_model) == np.shape(target):
+                model[mkey] = src_model
+                val = d2[rr, 0:k]
+            else:
+                how = 'array'
+        except Exception:
+            how = 'array'
+        if how == 'array':
+            model = base.copy()
+            model[mkey] = val
     before_meta = meta_of(d2)
     key_before = repr(key)
     r = call(d2.__setitem__, key, val)
